@@ -211,8 +211,13 @@ impl Packet {
     }
 
     pub fn new_from_bufferer(buffer: &mut Buffer<LittleEndian>) -> GDResult<Self> {
+        let header = buffer.read::<u32>()?;
+        if header != u32::MAX {
+            return Err(crate::GDErrorKind::PacketBad.context("Expected a simple packet header"));
+        }
+
         Ok(Self {
-            header: buffer.read::<u32>()?,
+            header,
             kind: buffer.read::<u8>()?,
             payload: buffer.remaining_bytes().to_vec(),
         })
